@@ -29,7 +29,7 @@ macro "args_eq" : tactic =>
   `(tactic| first
     | rfl
     | (apply BitVec.eq_of_toNat_eq
-       simp only [BitVec.toNat_add, BitVec.toNat_sub, BitVec.toNat_setWidth, BitVec.toNat_ofNat]
+       try simp only [BitVec.toNat_add, BitVec.toNat_sub, BitVec.toNat_setWidth, BitVec.toNat_ofNat]
        omega))
 
 /-! ### the Go types the reading below relies on -/
@@ -78,7 +78,8 @@ theorem minMsgSize_spec (a m s t : BitVec 64) :
 example : (topicMinMsgSize 5 6 7 8).toInt = 26 := by rw [(minMsgSize_spec 5 6 7 8).1]; decide
 
 /-- (e) `--max-bytes-per-file`, `--sync-every`, `--sync-timeout` reach go-diskqueue unchanged, each at its
-own position (a swap of two of them refutes this) -/
+own position (a swap of two of them refutes this).  go-diskqueue hands `syncTimeout` to `time.NewTicker`, which
+panics for a value ≤ 0: nothing in nsqd excludes `--sync-timeout 0` (observed on the real code, see docs) -/
 theorem options_passed_through (a m s t : BitVec 64) :
     topicMaxBytesPerFile a m s t = a ∧ topicSyncEvery a m s t = s ∧ topicSyncTimeout a m s t = t ∧
     chanMaxBytesPerFile a m s t = a ∧ chanSyncEvery a m s t = s ∧ chanSyncTimeout a m s t = t := by
@@ -174,6 +175,9 @@ private theorem toInt32_eq (m : BitVec 64) :
   simp only [BitVec.toNat_ofNat, Int.bmod_def]
   omega
 
+example : (BitVec.setWidth 32 (2147483622#64 + 26#64)).toInt = ((2147483622#64).toInt + 26).bmod (2 ^ 32) ∧
+    ((2147483622#64).toInt + 26).bmod (2 ^ 32) = -2147483648 := ⟨toInt32_eq _, by decide⟩
+
 /-- (c)/(d) EXACTLY: the int32 expression equals the mathematical `MaxMsgSize + 26` iff that sum is an int32,
 i.e. iff `−2^31 − 26 ≤ MaxMsgSize ≤ 2^31 − 27`; outside, conversion or addition wraps -/
 theorem maxMsgSize_exact_iff (a m s t : BitVec 64) :
@@ -242,6 +246,9 @@ theorem wrapped_bound_rejects_all (a m s : BitVec 64) (h0 : 2147483648 - 26 ≤ 
     rw [h]; omega
   unfold ValidRec at hv
   rw [hmin, hmax] at hv; omega
+
+example : ∀ d, ¬ ValidRec (dqCfgOf 104857600#64 2147483647#64 2500#64) d :=
+  (wrapped_bound_rejects_all _ _ _ (by decide) (by decide)).2.2
 
 /-- (d) concrete witness: `--max-msg-size 2147483622` (= 2^31 − 26) gives the bound −2147483648; the smallest
 message (empty body) is refused -/
